@@ -139,7 +139,11 @@ def r2(ctx, facts):
                 g = gets[0][1]
                 c = b.term(g)["callee"]
                 so = b.arg_origin(g, 0)
-                if c.get("self_ty") != ms[k] or not (so[0] == "param" and so[1] == 1 and so[2][:1] == (str(k),)) or b.arg_origin(g, 1) != ("param", 2, ()):
+                # the lookup is on member k: decided by where the storage operand comes from (field k of the tuple); the callee's Self type must
+                # agree unless the call sits in an inlined generic helper, where it is the helper's own type parameter
+                sty = c.get("self_ty")
+                inlined_generic = b.src(g) != b.path and sty not in ms
+                if (sty != ms[k] and not inlined_generic) or not (so[0] == "param" and so[1] == 1 and so[2][:1] == (str(k),)) or b.arg_origin(g, 1) != ("param", 2, ()):
                     ok, why = False, "position %d is read from %s / %r for entity %r (expected member %d = %s and the entity parameter)" % (k, c.get("self_ty"), so, b.arg_origin(g, 1), k, ms[k])
                     break
                 # converted: the value at this position depends on a convert_into call fed by that lookup
